@@ -298,7 +298,7 @@ def odf_contracts(reg):
             elif _is_strlist(st0, v):
                 layout[n] = "acc"
             elif isinstance(v, VTuple):
-                layout[n] = ("tuple", [role(x) for x in v.items])
+                layout[n] = ("tuple", [role(x) for x in v.items], getattr(v, "names", None), getattr(v, "cls", None))     # a NamedTuple keeps its field names
             elif isinstance(v, VRef) and st0.obj(v.ref).kind == "obj":
                 o = st0.obj(v.ref)
                 layout[n] = ("obj", o.cls, {f: role(x) for f, x in o.data.items()})
@@ -335,9 +335,15 @@ def odf_contracts(reg):
         if l == "acc":
             return p_strlist()
         if l[0] == "tuple":
-            kinds = list(l[1])
-            return Maker(lambda ex, st, nm: VTuple([(VExt("StrSet", z3.Const(f"{nm}.{i}", STRSET)) if r == "skip_tags" else VStr(z3.String(f"{nm}.{i}")))
-                                                    for i, r in enumerate(kinds)]), desc="tuple of configuration values")
+            kinds, names, ncls = list(l[1]), (l[2] if len(l) > 2 else None), (l[3] if len(l) > 3 else None)
+
+            def mk_tuple(ex, st, nm):
+                items = [(VExt("StrSet", z3.Const(f"{nm}.{i}", STRSET)) if r == "skip_tags" else VStr(z3.String(f"{nm}.{i}"))) for i, r in enumerate(kinds)]
+                if names is not None:
+                    from pyvc.values import VNamedTuple
+                    return VNamedTuple(items, names, ncls)
+                return VTuple(items)
+            return Maker(mk_tuple, desc="tuple of configuration values")
         if l[0] == "val":
             return p_strset() if l[1] == "skip_tags" else (p_str() if l[1] else Maker(lambda ex, st, nm: VUnk(nm), desc="any"))
         return p_obj(l[1], {f: (p_strset() if r == "skip_tags" else p_str()) for f, r in l[2].items()})
@@ -2141,8 +2147,10 @@ def empty_element_obligations(repo, tier):
             def fld(st, c, f):
                 return st.obj(c.args["self"].ref).data[f]
 
-            def depth_kept(c):
-                a, b = fld(c.entry, c, "skip_depth"), fld(c.st, c, "skip_depth")
+            depth = C.need(rel, cls, repo, "depth")["depth"]          # the counter, by role (a renamed field re-verifies)
+
+            def depth_kept(c, depth=depth):
+                a, b = fld(c.entry, c, depth), fld(c.st, c, depth)
                 if not (isinstance(a, VInt) and isinstance(b, VInt)):
                     raise X.Unsupported("skip depth is not an int")
                 return b.t == a.t
@@ -2158,7 +2166,7 @@ def empty_element_obligations(repo, tier):
                     out.append(z3.Implies(b.t, a.t))
                 return z3.And(out + [z3.BoolVal(True)])
             con = FnContract(target=fq, params=[("self", start.params[0][1])] + [(a.arg, m) for a, (_n, m) in zip(fnode.args.args[1:], start.params[1:])],
-                             requires=lambda c: fld(c.st, c, "skip_depth").t >= 0,
+                             requires=lambda c, depth=depth: fld(c.st, c, depth).t >= 0,
                              ensures=[(EMPTY_ELEMENT_IDS[0].split("#")[1], X.robust(depth_kept)), (EMPTY_ELEMENT_IDS[1].split("#")[1], X.robust(no_context))],
                              modifies=("self",), raises=[Raises("Exception", sub=True)])
             if len(fnode.args.args) != 3 or fnode.args.args[0].arg != "self":
@@ -2413,7 +2421,46 @@ def _module_strs(mod):
     return out
 
 
-def _loop_nest(branch_body, root, acc, strs):
+def _emits_text(body, cur, acc, mod, depth):
+    """The statements `body` do exactly this with the element named `cur`:  text = f(.. cur ..); [if text.strip():] acc.append(text)
+    -- directly, or through a module-level helper called with `cur` and `acc` whose body does (followed `depth` levels).
+    Anything else raises Unsupported."""
+    import ast
+    body = [x for x in body if not (isinstance(x, ast.Expr) and isinstance(x.value, ast.Constant))]          # docstring
+    if len(body) == 1 and isinstance(body[0], ast.Expr) and isinstance(body[0].value, ast.Call) and isinstance(body[0].value.func, ast.Name) \
+            and mod is not None and body[0].value.func.id in mod.functions and depth > 0:
+        call, h = body[0].value, mod.functions[body[0].value.func.id]
+        a = h.args
+        if a.vararg or a.kwarg or any(isinstance(x, ast.Starred) for x in call.args) or any(k.arg is None for k in call.keywords):
+            raise X.Unsupported("helper call with star arguments")
+        bound = dict(zip([x.arg for x in a.posonlyargs + a.args], call.args))
+        bound.update({k.arg: k.value for k in call.keywords})
+        names = {n: v.id for n, v in bound.items() if isinstance(v, ast.Name)}
+        pc = [n for n, v in names.items() if v == cur]
+        pa = [n for n, v in names.items() if v == acc]
+        if len(pc) != 1 or len(pa) != 1 or len(names) != len(bound):
+            raise X.Unsupported("helper does not receive the paragraph and the output list as plain names")
+        return _emits_text(h.body, pc[0], pa[0], mod, depth - 1)
+    texts = set()
+    for x in body:
+        if isinstance(x, ast.Assign) and len(x.targets) == 1 and isinstance(x.targets[0], ast.Name) and isinstance(x.value, ast.Call) \
+                and any(isinstance(y, ast.Name) and y.id == cur for y in ast.walk(x.value)):
+            texts.add(x.targets[0].id)
+            continue
+        stmts = [x]
+        if isinstance(x, ast.If) and not x.orelse and {y.id for y in ast.walk(x.test) if isinstance(y, ast.Name)} <= texts \
+                and ast.unparse(x.test) in {f"{t}.strip()" for t in texts} | {f"{t}" for t in texts}:
+            stmts = x.body
+        ok = len(stmts) == 1 and isinstance(stmts[0], ast.Expr) and isinstance(stmts[0].value, ast.Call) and isinstance(stmts[0].value.func, ast.Attribute) \
+            and stmts[0].value.func.attr == "append" and isinstance(stmts[0].value.func.value, ast.Name) and stmts[0].value.func.value.id == acc \
+            and len(stmts[0].value.args) == 1 and isinstance(stmts[0].value.args[0], ast.Name) and stmts[0].value.args[0].id in texts
+        if not ok:
+            raise X.Unsupported("innermost body is not `text = f(paragraph); if text.strip(): out.append(text)`")
+    if not texts:
+        raise X.Unsupported("innermost body does not take the paragraph's text")
+
+
+def _loop_nest(branch_body, root, acc, strs, mod=None):
     """[(step, tag)] of a plain loop nest over the tree below `root` whose innermost body appends text of the innermost
     loop variable to `acc`; raises Unsupported for any other shape."""
     import ast
@@ -2460,24 +2507,7 @@ def _loop_nest(branch_body, root, acc, strs):
         cur, body = f.target.id, f.body
         if not any(isinstance(x, ast.For) for x in body):
             break
-    # innermost body: text = f(.. cur ..); [if <test on text>:] acc.append(text)   -- nothing else
-    texts = set()
-    for x in body:
-        if isinstance(x, ast.Assign) and len(x.targets) == 1 and isinstance(x.targets[0], ast.Name) and isinstance(x.value, ast.Call) \
-                and any(isinstance(y, ast.Name) and y.id == cur for y in ast.walk(x.value)):
-            texts.add(x.targets[0].id)
-            continue
-        stmts = [x]
-        if isinstance(x, ast.If) and not x.orelse and {y.id for y in ast.walk(x.test) if isinstance(y, ast.Name)} <= texts \
-                and ast.unparse(x.test) in {f"{t}.strip()" for t in texts} | {f"{t}" for t in texts}:
-            stmts = x.body
-        ok = len(stmts) == 1 and isinstance(stmts[0], ast.Expr) and isinstance(stmts[0].value, ast.Call) and isinstance(stmts[0].value.func, ast.Attribute) \
-            and stmts[0].value.func.attr == "append" and isinstance(stmts[0].value.func.value, ast.Name) and stmts[0].value.func.value.id == acc \
-            and len(stmts[0].value.args) == 1 and isinstance(stmts[0].value.args[0], ast.Name) and stmts[0].value.args[0].id in texts
-        if not ok:
-            raise X.Unsupported("innermost body is not `text = f(paragraph); if text.strip(): out.append(text)`")
-    if not texts:
-        raise X.Unsupported("innermost body does not take the paragraph's text")
+    _emits_text(body, cur, acc, mod, 2)
     return chain
 
 
@@ -2533,12 +2563,17 @@ def odt_cover_obligations(repo, tier):
                    and isinstance(x.value.value, ast.Name) and x.value.value.id == root for t in x.targets if isinstance(t, ast.Name)}
         is_tag = lambda n: (isinstance(n, ast.Name) and n.id in tagvars) or (isinstance(n, ast.Attribute) and n.attr == "tag" and isinstance(n.value, ast.Name) and n.value.id == root)
         branches = {}
-        for x in fnode.body:
-            if isinstance(x, ast.If) and isinstance(x.test, ast.Compare) and len(x.test.ops) == 1 and isinstance(x.test.ops[0], ast.Eq) and is_tag(x.test.left):
-                c = x.test.comparators[0]
-                v = strs.get(c.id) if isinstance(c, ast.Name) else (c.value if isinstance(c, ast.Constant) else None)
+        nested = {id(y) for f in ast.walk(fnode) if isinstance(f, (ast.For, ast.While, ast.FunctionDef, ast.Lambda)) and f is not fnode for y in ast.walk(f) if y is not f}
+        for x in ast.walk(fnode):            # `if tag == T:` statements and the arms of if / elif chains, outside loops
+            if isinstance(x, ast.If) and id(x) not in nested and isinstance(x.test, ast.Compare) and len(x.test.ops) == 1 and isinstance(x.test.ops[0], ast.Eq):
+                l, r = x.test.left, x.test.comparators[0]
+                c = r if is_tag(l) else (l if is_tag(r) else None)
+                v = None if c is None else (strs.get(c.id) if isinstance(c, ast.Name) else (c.value if isinstance(c, ast.Constant) else None))
                 if isinstance(v, str):
-                    branches[v] = x
+                    if v in branches:
+                        branches[v] = None          # two branches for one tag: not the shape described here
+                    else:
+                        branches[v] = x
         reg = Registry()
         ex = EXECUTOR(mod, reg, Universe(repo))
         ex.oid_prefix = pre[:-1]
@@ -2548,8 +2583,8 @@ def odt_cover_obligations(repo, tier):
             br = branches.get(ctag)
             try:
                 if br is None:
-                    raise X.Unsupported(f"no branch `tag == <{ctag.rsplit('}', 1)[-1]}>` at the top level of the function")
-                nest = _loop_nest(br.body, root, acc, strs)
+                    raise X.Unsupported(f"no single branch `tag == <{ctag.rsplit('}', 1)[-1]}>` in the function")
+                nest = _loop_nest(br.body, root, acc, strs, mod)
             except X.Unsupported as e:
                 out += _unknown(pre, ["policy#" + label], str(e), fq)
                 continue
